@@ -87,7 +87,13 @@ VARIANTS = {
         "env": {
             "RUSTFLAGS": HOOK_CFG + " -Zsanitizer=address -Cforce-frame-pointers=yes",
             "CC": "clang-14",
-            "CFLAGS": "-fsanitize=address -fno-omit-frame-pointer -g",
+            # decNumber deliberately over-reads its BCD buffers by up to 3 bytes (4-byte UBTOUI loads, see
+            # decBasic.c / decCommon.c; the repo itself builds it with -Wno-array-bounds). Those reads do not
+            # affect any result, so only WRITES of the C code are instrumented; the Rust side keeps full
+            # read+write instrumentation (incl. the libc interceptors used on the C buffers). Loop-idiom memcpy
+            # recognition is disabled for the C code so that those 4-byte copy loops are not turned into
+            # intercepted memcpy calls that read the same 3 slack bytes.
+            "CFLAGS": "-fsanitize=address -fno-omit-frame-pointer -g -mllvm -asan-instrument-reads=0 -mllvm -disable-loop-idiom-memcpy",
         },
         "bin": "x86_64-unknown-linux-gnu/debug/dmntk-verif-driver",
         "run_env": {
